@@ -1319,7 +1319,16 @@ pub fn gen_readerx(r: &mut Rng, _i: u64) -> String {
     format!("reader {} {}", to_hex(&buf), ops.join(" "))
 }
 
-pub fn gen_iter(r: &mut Rng, _i: u64) -> String {
+pub fn gen_iter(r: &mut Rng, i: u64) -> String {
+    if super::truth::big_slot(i, 100) {
+        // the iterator API takes buffers of any length: records ending / starting past offset 65535
+        if let Some((_, mut buf, _, _)) = super::truth::gen_big(r, &[65535, 65536, 65537, 65600, 66000, 70000]) {
+            if r.chance(1, 4) {
+                mutate(&mut buf, r);
+            }
+            return format!("iter {}", to_hex(&buf));
+        }
+    }
     let (buf, _, _) = gen_message_bytes(r);
     format!("iter {}", to_hex(&buf))
 }
@@ -1524,12 +1533,21 @@ pub fn gen_rrset(r: &mut Rng, _i: u64) -> String {
         _ => 1,
     };
     let questions: Vec<(GName, u16, u16)> = (0..nq).map(|_| (qname.clone(), want, qclass)).collect();
+    // over-claimed header counts: NSCOUNT + ARCOUNT reach or pass 65536, so a 16-bit sum of the unread
+    // counts wraps; the records present are still read in order, the OPT among them
+    let mut count_delta = [0i32; 4];
+    let overclaim = r.chance(1, 12);
+    if overclaim {
+        let (ns, ar) = *r.pick(&[(0x8000i32, 0x8000i32), (0xFFFF, 1), (0xFFFF, 2), (0xFFFE, 3), (2, 0xFFFF), (0xFFFF, 0xFFFF), (0x7FFF, 0x8000)]);
+        count_delta[2] = (ns - sections[1].len() as i32).max(0);
+        count_delta[3] = (ar - sections[2].len() as i32).max(0);
+    }
     let m = GMsg {
         id: r.next() as u16,
         flags,
         questions,
         sections,
-        count_delta: [0; 4],
+        count_delta,
     };
     let mode = pick_mode(r);
     let (mut buf, _) = encode(&m, mode, r);
@@ -1544,6 +1562,7 @@ pub fn gen_rrset(r: &mut Rng, _i: u64) -> String {
         .find(|x| x.rtype == T_OPT)
         .map(|x| (x.ttl >> 24) as u8);
     let clean = !mutated
+        && !overclaim
         && m.flags == 0x8180
         && m.questions.len() == 1
         && first_opt_ext.unwrap_or(0) == 0
